@@ -147,8 +147,27 @@ def dict_unions():
     return st.lists(d, min_size=2, max_size=4, unique_by=repr).map(lambda l: ["Union", l])
 
 
+def nested_union_containers():
+    """Union[C[<inner union>], C[<sibling>]]: a kept outer union whose members hold unions of their own - large ones of
+    unrelated atoms (what one rewriter turns into Any another may take for an empty container), or unions of same-key dicts
+    (members that become equal once the inner union is merged)"""
+    atoms_ = [["atom", "int"], ["atom", "str"], ["atom", "float"], ["atom", "bytes"], ["atom", "bool"], ["cls", "D1"], ["atom", "None"]]
+    big = st.lists(st.sampled_from(atoms_), min_size=3, max_size=7, unique_by=repr).map(lambda l: ["Union", l])
+    dicts = st.lists(st.sampled_from([["Dict", ["atom", "str"], ["atom", "int"]], ["Dict", ["atom", "str"], ["atom", "str"]], ["Dict", ["atom", "str"], ["atom", "float"]]]),
+                     min_size=2, max_size=3, unique_by=repr)
+    inner = st.one_of(big, dicts.map(lambda l: ["Union", l]))
+    merged = dicts.map(lambda l: ["Dict", ["atom", "str"], ["Union", [d[2] for d in l]]])
+    sibling = st.one_of(st.sampled_from([["atom", "int"], ["atom", "str"], ["Any"]]), merged)
+
+    def wrap(kind, t):
+        return {"List": ["List", t], "Set": ["Set", t], "Tuple": ["Tuple", [t]], "DictVal": ["Dict", ["atom", "str"], t], "Iterator": ["Iterator", t]}[kind]
+
+    return st.tuples(st.sampled_from(["List", "List", "Set", "Tuple", "DictVal", "Iterator"]), inner, sibling, st.booleans()).map(
+        lambda p: ["Union", [wrap(p[0], p[1]), wrap(p[0], p[2])] + ([["atom", "None"]] if p[3] else [])])
+
+
 def focused():
-    return st.one_of(tuple_unions(), mixed_tuple_unions(), class_unions(), container_class_unions(), dict_unions())
+    return st.one_of(tuple_unions(), mixed_tuple_unions(), class_unions(), container_class_unions(), dict_unions(), nested_union_containers())
 
 
 # ---- exhaustive enumeration -------------------------------------------------------------------
